@@ -77,16 +77,26 @@ class Runner:
                     self.inconclusive.append({'query': q.name, 'why': 'interpreter/native divergence', 'request': nat, 'native': got})
                 nat_checked += 1
         rec['native_validated'] = nat_checked
+        attempts = {}
         for v in r.violations:
             if 'fns' in v: self.fn_seen.update(v['fns'])
+            pre_key = None
+            if key_of is not None:
+                try: pre_key = key_of(v)
+                except Exception: pre_key = None
+            if pre_key is not None:
+                if any(x['key'] == pre_key for x in self.violations): continue          # this failure is already confirmed
+                if attempts.get(pre_key, 0) >= 3: continue                               # three witnesses of this role did not reproduce
+                attempts[pre_key] = attempts.get(pre_key, 0) + 1
             c = confirm(v, self.oracle) if confirm else {'confirmed': False, 'why': 'no native replay defined'}
             if not c.get('confirmed'):
                 self.inconclusive.append({'query': q.name, 'why': 'solver counterexample did not reproduce natively: ' + str(c.get('why', ''))[:200],
                                           'counterexample': {k: v[k] for k in v if k not in ('fns',)}})
                 continue
-            key = key_of(v) if key_of else json.dumps(c.get('replay'), sort_keys=True)
+            key = pre_key if pre_key is not None else json.dumps(c.get('replay'), sort_keys=True)
             if any(x['key'] == key for x in self.violations): continue
             self.violations.append({'key': key, 'query': q.name, 'replay': c['replay'], 'what': c.get('what', v.get('message', ''))})
+        rec['violating_paths'] = len(r.violations)
         self.queries.append(rec)
         return r
 
